@@ -266,8 +266,16 @@ func (o *oracle) classifyLossFrom(key uint64, from int, firstTickOfKey bool) str
 		if o.boundaryNotice(key, from, func(h hev) bool { return h.name == "reorg" && h.cur && !h.prev }) {
 			return "C16/attester-next-epoch-duties-lost-after-boundary-reorg"
 		}
-		if firstTickOfKey && o.boundaryNotice(key, from, func(h hev) bool { return h.name == "indices" }) {
-			return "C16/attester-first-slot-duties-lost-after-boundary-indices-change"
+		// indices change: only the first tick handled after the notice loses its duties (it re-fetches afterwards)
+		lastNotice := len(o.hist)
+		for lastNotice > 0 && o.hist[lastNotice-1].name != "tick" {
+			lastNotice--
+		}
+		if lastNotice < from {
+			lastNotice = from
+		}
+		if o.boundaryNotice(key, lastNotice, func(h hev) bool { return h.name == "indices" }) {
+			return "C16/attester-duties-lost-at-first-tick-after-boundary-indices-change"
 		}
 	case "sync":
 		if o.boundaryNotice(key, from, func(h hev) bool { return h.name == "reorg" && h.cur }) {
